@@ -511,6 +511,17 @@ theorem assocSet_keys_nodup (l : List (α × β)) (k : α) (v : β) (h : (l.map 
       intro heq
       exact hk (heq ▸ ha)⟩
 
+theorem assocGet?_assocSet_self (l : List (α × β)) (k : α) (v : β) : assocGet? (assocSet l k v) k = some v := by
+  induction l with
+  | nil => simp [assocSet, assocGet?]
+  | cons x xs ih =>
+    obtain ⟨k', v'⟩ := x
+    by_cases h : k' = k
+    · simp [assocSet, assocGet?, h]
+    · unfold assocGet? at ih ⊢
+      simp only [assocSet, h, if_false, List.find?_cons, decide_false]
+      exact ih
+
 /-- the dictionary after assigning `key x := val x` for every `x` of `l` in order, starting from `acc` -/
 def build (key : ι → α) (val : ι → β) (acc : List (α × β)) (l : List ι) : List (α × β) :=
   l.foldl (fun t x => assocSet t (key x) (val x)) acc
@@ -783,6 +794,31 @@ theorem assocGet?_mem {α β : Type} [DecidableEq α] (l : List (α × β)) (k :
     subst hk; subst h
     exact hmem
 
+theorem mapM_assoc_mem (anum : List (String × Nat)) : ∀ (names : List String) (vs : List Nat),
+    names.mapM (assocGet? anum) = some vs → ∀ v ∈ vs, ∃ nm, (nm, v) ∈ anum := by
+  intro names
+  induction names with
+  | nil =>
+    intro vs h v hv
+    simp at h
+    subst h
+    simp at hv
+  | cons a rest ih =>
+    intro vs h v hv
+    simp only [List.mapM_cons, bind, Option.bind] at h
+    cases ha : assocGet? anum a with
+    | none => simp [ha] at h
+    | some va =>
+      simp only [ha] at h
+      cases hr : rest.mapM (assocGet? anum) with
+      | none => simp [hr] at h
+      | some vr =>
+        simp only [hr, pure, Option.some.injEq] at h
+        subst h
+        rcases List.mem_cons.mp hv with rfl | hv'
+        · exact ⟨a, assocGet?_mem _ _ _ ha⟩
+        · exact ih vr hr v hv'
+
 theorem modIxnStep_inv (anum : List (String × Nat)) (ixns : List MIxn) :
     ∀ (mol m' : Mol), ixns.foldlM (modIxnStep anum) mol = .ok m' →
       m'.atoms = mol.atoms ∧ ∃ added, m'.ixns = mol.ixns ++ added ∧
@@ -803,24 +839,18 @@ theorem modIxnStep_inv (anum : List (String × Nat)) (ixns : List MIxn) :
       obtain ⟨hat, added, hix, hadded⟩ := ih mol1 m' h
       -- what one step does
       unfold modIxnStep at hstep
-      split at hstep
-      · rename_i a0 a1 _ hj
-        split at hstep
-        · rename_i v0 v1 h0 h1
-          simp only [Except.ok.injEq] at hstep
-          subst hstep
-          refine ⟨hat, [Ixn.mk j.sect [v0, v1] j.params j.info] ++ added, by simp [hix], ?_⟩
-          intro j' hj' v hv
-          rcases List.mem_append.mp hj' with h' | h'
-          · simp only [List.mem_singleton] at h'
-            subst h'
-            simp only [List.mem_cons, List.not_mem_nil, or_false] at hv
-            rcases hv with rfl | rfl
-            · exact ⟨a0, assocGet?_mem _ _ _ h0⟩
-            · exact ⟨a1, assocGet?_mem _ _ _ h1⟩
-          · exact hadded j' h' v hv
-        · simp at hstep
-      · simp at hstep
+      cases hm : j.atoms.mapM (assocGet? anum) with
+      | none => simp [hm] at hstep
+      | some vs =>
+        simp only [hm, Except.ok.injEq] at hstep
+        subst hstep
+        refine ⟨hat, [Ixn.mk j.sect vs j.params j.info] ++ added, by simp [hix], ?_⟩
+        intro j' hj' v hv
+        rcases List.mem_append.mp hj' with h' | h'
+        · simp only [List.mem_singleton] at h'
+          subst h'
+          exact mapM_assoc_mem anum j.atoms vs hm v hv
+        · exact hadded j' h' v hv
 
 section modframe
 variable {κ : Type} [DecidableEq κ]
@@ -837,37 +867,42 @@ theorem applyOneMod_frame (protein : List String) (ff : FF) (nodes : List (ResNo
       ∀ j ∈ added, ∀ v ∈ j.atoms, v ∈ namedAtoms protein ff nodes graphs m t := by
   unfold applyOneMod at h
   unfold namedAtoms
-  cases hmd : ff.mod? t.modName with
-  | none => simp [hmd] at h
-  | some md =>
-    simp only [hmd] at h ⊢
-    cases htg : nodes.find? (fun n => decide (n.resid = t.resid)) with
-    | none => simp [htg] at h
-    | some target =>
-      simp only [htg] at h ⊢
-      by_cases hprot : protein.contains target.resname = true
-      · simp only [hprot, Bool.not_true, Bool.false_eq_true, if_false] at h ⊢
-        cases hgr : assocGet? graphs target.key with
-        | none => simp [hgr] at h
-        | some graph =>
-          simp only [hgr] at h ⊢
-          obtain ⟨h1, h2, h3⟩ := modAtomStep_inv m md graph (m.atoms, [])
-          obtain ⟨hat, added, hix, hadded⟩ := modIxnStep_inv _ md.ixns _ m' h
-          refine ⟨?_, ?_, added, ?_, ?_⟩
-          · rw [hat]; exact h1
-          · intro a ha hn
-            rw [hat]
-            exact h2 a ha hn
-          · simpa using hix
-          · intro j hj v hv
-            obtain ⟨nm, hnm⟩ := hadded j hj v hv
-            rcases h3 (nm, v) hnm with h' | h'
-            · simp at h'
-            · exact h'
-      · have hp : protein.contains target.resname = false := by simpa using hprot
-        simp only [hp, Bool.not_false, if_true, Except.ok.injEq] at h ⊢
+  cases htg : nodes.find? (fun n => decide (n.resid = t.resid)) with
+  | none => simp [htg] at h
+  | some target =>
+    simp only [htg] at h ⊢
+    by_cases hprot : protein.contains target.resname = true
+    · simp only [hprot, Bool.not_true, Bool.false_eq_true, if_false] at h ⊢
+      by_cases hrn : (t.resname.isSome && t.resname != some target.resname) = true
+      · simp only [hrn, if_true, Except.ok.injEq] at h ⊢
         subst h
         exact ⟨rfl, fun a ha _ => ha, [], by simp, by simp⟩
+      · simp only [hrn, Bool.false_eq_true, if_false] at h ⊢
+        cases hmd : ff.mod? t.modName with
+        | none => simp [hmd] at h
+        | some md =>
+          simp only [hmd] at h ⊢
+          cases hgr : assocGet? graphs target.key with
+          | none => simp [hgr] at h
+          | some graph =>
+            simp only [hgr] at h ⊢
+            obtain ⟨h1, h2, h3⟩ := modAtomStep_inv m md graph (m.atoms, [])
+            obtain ⟨hat, added, hix, hadded⟩ := modIxnStep_inv _ md.ixns _ m' h
+            refine ⟨?_, ?_, added, ?_, ?_⟩
+            · rw [hat]; exact h1
+            · intro a ha hn
+              rw [hat]
+              exact h2 a ha hn
+            · simpa using hix
+            · intro j hj v hv
+              obtain ⟨nm, hnm⟩ := hadded j hj v hv
+              rcases h3 (nm, v) hnm with h' | h'
+              · simp at h'
+              · exact h'
+    · have hp : protein.contains target.resname = false := by simpa using hprot
+      simp only [hp, Bool.not_false, if_true, Except.ok.injEq] at h ⊢
+      subst h
+      exact ⟨rfl, fun a ha _ => ha, [], by simp, by simp⟩
 
 /-- the atoms of the residue a `-mods` selection points at -/
 def targetGraph (nodes : List (ResNode κ)) (graphs : List (κ × List Nat)) (t : ModTarget) : List Nat :=
@@ -880,23 +915,26 @@ theorem namedAtoms_subset (protein : List String) (ff : FF) (nodes : List (ResNo
     (h : v ∈ namedAtoms protein ff nodes graphs m t) : v ∈ targetGraph nodes graphs t := by
   unfold namedAtoms at h
   unfold targetGraph
-  cases hmd : ff.mod? t.modName with
-  | none => simp [hmd] at h
-  | some md =>
-    simp only [hmd] at h
-    cases htg : nodes.find? (fun n => decide (n.resid = t.resid)) with
-    | none => simp [htg] at h
-    | some target =>
-      simp only [htg] at h ⊢
-      by_cases hprot : protein.contains target.resname = true
-      · simp only [hprot, Bool.not_true, Bool.false_eq_true, if_false] at h
-        cases hgr : assocGet? graphs target.key with
-        | none => simp [hgr] at h
-        | some graph =>
-          simp only [hgr] at h ⊢
-          exact (List.mem_filter.mp h).1
-      · have hp : protein.contains target.resname = false := by simpa using hprot
-        simp only [hp, Bool.not_false, if_true, List.not_mem_nil] at h
+  cases htg : nodes.find? (fun n => decide (n.resid = t.resid)) with
+  | none => simp [htg] at h
+  | some target =>
+    simp only [htg] at h ⊢
+    by_cases hprot : protein.contains target.resname = true
+    · simp only [hprot, Bool.not_true, Bool.false_eq_true, if_false] at h
+      by_cases hrn : (t.resname.isSome && t.resname != some target.resname) = true
+      · simp only [hrn, if_true, List.not_mem_nil] at h
+      · simp only [hrn, Bool.false_eq_true, if_false] at h
+        cases hmd : ff.mod? t.modName with
+        | none => simp [hmd] at h
+        | some md =>
+          simp only [hmd] at h
+          cases hgr : assocGet? graphs target.key with
+          | none => simp [hgr] at h
+          | some graph =>
+            simp only [hgr] at h ⊢
+            exact (List.mem_filter.mp h).1
+    · have hp : protein.contains target.resname = false := by simpa using hprot
+      simp only [hp, Bool.not_false, if_true, List.not_mem_nil] at h
 
 /-- all selected modifications together: nothing outside the target residues changes, interactions are
 only appended inside one target residue each -/
@@ -960,18 +998,18 @@ number of residues (resids `1 .. nres` in order) -/
 def MultiBlock (b : Block) : Prop :=
   blockBase b = 1 ∧ (∀ a ∈ b.atoms, 1 ≤ a.resid) ∧ ∃ la, b.atoms.getLast? = some la ∧ la.resid = b.nres
 
-/-- the bookkeeping `match_nodes_to_blocks` must have produced for one copy: the copy is fragment `f`,
-the fragment lists exactly the copy's nodes, every node of the copy points at fragment `f` -/
-def MultiSeg (ff : FF) (t : Tables κ) (f : Nat) (n : ResNode κ) (others : List (ResNode κ)) : Prop :=
-  ∃ bn b, n.fromItp = some bn ∧ ff.block? bn = some b ∧ MultiBlock b ∧ others.length + 1 = b.nres ∧
+/-- the bookkeeping `match_nodes_to_blocks` must have produced for one copy: the copy is some fragment
+`f` (any number), the fragment lists exactly the copy's nodes, every node of the copy points at `f` -/
+def MultiSeg (ff : FF) (t : Tables κ) (n : ResNode κ) (others : List (ResNode κ)) : Prop :=
+  ∃ bn b f, n.fromItp = some bn ∧ ff.block? bn = some b ∧ MultiBlock b ∧ others.length + 1 = b.nres ∧
     assocGet? t.blockOf n.key = some bn ∧ assocGet? t.fragOf n.key = some f ∧
     t.frags[f]? = some (n.key :: others.map (·.key)) ∧ ∀ o ∈ others, assocGet? t.fragOf o.key = some f
 
-/-- segments are well formed and the copies are numbered `f, f+1, ...` in resid order -/
-def SegsOK (ff : FF) (t : Tables κ) : Nat → List (Seg κ) → Prop
-  | _, [] => True
-  | f, .single n :: rest => RegularNode ff t n ∧ SegsOK ff t f rest
-  | f, .multi n others :: rest => MultiSeg ff t f n others ∧ SegsOK ff t (f + 1) rest
+/-- every segment is well formed -/
+def SegsOK (ff : FF) (t : Tables κ) : List (Seg κ) → Prop
+  | [] => True
+  | .single n :: rest => RegularNode ff t n ∧ SegsOK ff t rest
+  | .multi n others :: rest => MultiSeg ff t n others ∧ SegsOK ff t rest
 
 theorem addBlocksFrom_append_ok (ff : FF) (t : Tables κ) (xs ys : List (ResNode κ)) :
     ∀ (st st1 : St κ), addBlocksFrom ff t st xs = .ok st1 →
@@ -1005,11 +1043,11 @@ theorem stepNode_multiFirst (ff : FF) (t : Tables κ) (st : St κ) (n : ResNode 
     (hf : assocGet? t.fragOf n.key = some f) (hfr : t.frags[f]? = some frag) :
     stepNode ff t st n = .ok ⟨(mergeMolecule st.mol b).1,
       st.graphs ++ [(n.key, residueOf (mergeMolecule st.mol b).1 (mergeMolecule st.mol b).2 n.resid)],
-      st.added ++ frag, st.corrs ++ [(mergeMolecule st.mol b).2]⟩ := by
+      st.added ++ frag, assocSet st.corrs f (mergeMolecule st.mol b).2⟩ := by
   simp [stepNode, hnot, htbl, hb, hfi, hf, hfr]
 
 theorem stepNode_added (ff : FF) (t : Tables κ) (st : St κ) (n : ResNode κ) (f : Nat) (corr : List Nat)
-    (hin : n.key ∈ st.added) (hf : assocGet? t.fragOf n.key = some f) (hc : st.corrs[f]? = some corr) :
+    (hin : n.key ∈ st.added) (hf : assocGet? t.fragOf n.key = some f) (hc : assocGet? st.corrs f = some corr) :
     stepNode ff t st n =
       .ok { st with graphs := st.graphs ++ [(n.key, residueOf st.mol corr n.resid)] } := by
   simp [stepNode, hin, hf, hc]
@@ -1018,7 +1056,7 @@ theorem stepNode_added (ff : FF) (t : Tables κ) (st : St κ) (n : ResNode κ) (
 added-fragment list and the stored correspondences do not change -/
 theorem addBlocksFrom_added (ff : FF) (t : Tables κ) (f : Nat) (corr : List Nat) :
     ∀ (others : List (ResNode κ)) (st : St κ),
-      (∀ o ∈ others, o.key ∈ st.added ∧ assocGet? t.fragOf o.key = some f) → st.corrs[f]? = some corr →
+      (∀ o ∈ others, o.key ∈ st.added ∧ assocGet? t.fragOf o.key = some f) → assocGet? st.corrs f = some corr →
       ∃ st', addBlocksFrom ff t st others = .ok st' ∧ st'.mol = st.mol ∧ st'.added = st.added ∧
         st'.corrs = st.corrs := by
   intro others
@@ -1040,28 +1078,25 @@ theorem specGo_skip (ff : FF) (off cg : Nat) (xs rest : List (ResNode κ)) :
   | cons x xs ih => simpa [specGo] using ih
 
 /-- one whole copy of a multi-residue block -/
-theorem addBlocksFrom_multiSeg (ff : FF) (t : Tables κ) (st : St κ) (r c : Nat) (n : ResNode κ)
-    (others : List (ResNode κ)) (_g : Good st.mol r c) (hnot : n.key ∉ st.added)
-    (hseg : MultiSeg ff t st.corrs.length n others) :
+theorem addBlocksFrom_multiSeg (ff : FF) (t : Tables κ) (st : St κ) (n : ResNode κ)
+    (others : List (ResNode κ)) (hnot : n.key ∉ st.added) (hseg : MultiSeg ff t n others) :
     ∃ st' bn b la, n.fromItp = some bn ∧ ff.block? bn = some b ∧ MultiBlock b ∧
       others.length + 1 = b.nres ∧ b.atoms.getLast? = some la ∧ la.resid = b.nres ∧
       addBlocksFrom ff t st (n :: others) = .ok st' ∧
-      st'.mol = (mergeMolecule st.mol b).1 ∧ st'.added = st.added ++ (n.key :: others.map (·.key)) ∧
-      st'.corrs.length = st.corrs.length + 1 := by
-  obtain ⟨bn, b, hfi, hb, hmb, hlen, htbl, hf, hfr, hoth⟩ := hseg
+      st'.mol = (mergeMolecule st.mol b).1 ∧ st'.added = st.added ++ (n.key :: others.map (·.key)) := by
+  obtain ⟨bn, b, f, hfi, hb, hmb, hlen, htbl, hf, hfr, hoth⟩ := hseg
   obtain ⟨hbase, hres1, la, hla, hlares⟩ := hmb
-  have hstep := stepNode_multiFirst ff t st n bn b st.corrs.length _ hnot hfi htbl hb hf hfr
-  obtain ⟨st', hrun, h1, h2, h3⟩ := addBlocksFrom_added ff t st.corrs.length (mergeMolecule st.mol b).2 others
+  have hstep := stepNode_multiFirst ff t st n bn b f _ hnot hfi htbl hb hf hfr
+  obtain ⟨st', hrun, h1, h2, _⟩ := addBlocksFrom_added ff t f (mergeMolecule st.mol b).2 others
     ⟨(mergeMolecule st.mol b).1,
       st.graphs ++ [(n.key, residueOf (mergeMolecule st.mol b).1 (mergeMolecule st.mol b).2 n.resid)],
-      st.added ++ (n.key :: others.map (·.key)), st.corrs ++ [(mergeMolecule st.mol b).2]⟩
+      st.added ++ (n.key :: others.map (·.key)), assocSet st.corrs f (mergeMolecule st.mol b).2⟩
     (fun o ho => ⟨by simp only [List.mem_append, List.mem_cons, List.mem_map]
                      exact Or.inr (Or.inr ⟨o, ho, rfl⟩), hoth o ho⟩)
-    (by simp)
-  refine ⟨st', bn, b, la, hfi, hb, ⟨hbase, hres1, la, hla, hlares⟩, hlen, hla, hlares, ?_, h1, h2, ?_⟩
-  · simp only [addBlocksFrom, hstep]
-    exact hrun
-  · rw [h3]; simp
+    (assocGet?_assocSet_self _ _ _)
+  refine ⟨st', bn, b, la, hfi, hb, ⟨hbase, hres1, la, hla, hlares⟩, hlen, hla, hlares, ?_, h1, h2⟩
+  simp only [addBlocksFrom, hstep]
+  exact hrun
 
 /-- the general layout statement: any mix of regular residues and copies of multi-residue blocks, in
 resid order with contiguous resids, merged onto a good molecule -/
@@ -1070,7 +1105,7 @@ theorem addBlocksFrom_segs (ff : FF) (t : Tables κ) :
       Good st.mol r c →
       (∀ n ∈ segNodes segs, n.key ∉ st.added) →
       ((segNodes segs).map (·.key)).Nodup →
-      SegsOK ff t st.corrs.length segs →
+      SegsOK ff t segs →
       (segNodes segs).map (·.resid) = List.range' (r + 1) (segNodes segs).length →
       ∃ st', addBlocksFrom ff t st (segNodes segs) = .ok st' ∧
         st'.mol.atoms = st.mol.atoms ++ (specGo ff st.mol.atoms.length c 0 (segNodes segs)).atoms ∧
@@ -1123,8 +1158,8 @@ theorem addBlocksFrom_segs (ff : FF) (t : Tables κ) :
     | multi n others =>
       simp only [segNodes, List.flatMap_cons, Seg.nodes] at hnot hnd hres ⊢
       obtain ⟨hseg, hokrest⟩ := hok
-      obtain ⟨st1, bn, b, la, hfi, hb, hmb, hlen, hla, hlares, hrun1, hmol1, hadd1, hcorr1⟩ :=
-        addBlocksFrom_multiSeg ff t st r c n others g (hnot n (by simp)) hseg
+      obtain ⟨st1, bn, b, la, hfi, hb, hmb, hlen, hla, hlares, hrun1, hmol1, hadd1⟩ :=
+        addBlocksFrom_multiSeg ff t st n others (hnot n (by simp)) hseg
       have hmerge := mergeMolecule_good st.mol b r c g
       have hnres : n.resid = r + 1 := by
         have := congrArg List.head? hres
@@ -1165,7 +1200,7 @@ theorem addBlocksFrom_segs (ff : FF) (t : Tables κ) :
             have hnd' : ((n :: others).map (·.key) ++ (List.flatMap Seg.nodes rest).map (·.key)).Nodup := by
               simpa [List.map_append] using hnd
             simpa [segNodes] using (List.nodup_append.mp hnd').2.1)
-          (by rw [hcorr1]; exact hokrest)
+          hokrest
           (by simpa [segNodes, Nat.add_assoc] using hrestres)
       have happ := addBlocksFrom_append_ok ff t (n :: others) (List.flatMap Seg.nodes rest) st st1 hrun1
       refine ⟨st', ?_, ?_, ?_⟩
@@ -1198,7 +1233,7 @@ theorem firstNode_multi (ff : FF) (t : Tables κ) (n : ResNode κ) (bn : String)
     (hb : ff.block? bn = some b) (hf : assocGet? t.fragOf n.key = some f) (hfr : t.frags[f]? = some frag) :
     firstNode ff t n = .ok ⟨toMolecule b,
       [(n.key, residueOf (toMolecule b) ((toMolecule b).atoms.map (·.node)) n.resid)], frag,
-      [(toMolecule b).atoms.map (·.node)]⟩ := by
+      [(f, (toMolecule b).atoms.map (·.node))]⟩ := by
   simp [firstNode, htbl, hb, hfi, hf, hfr]
 
 theorem good_toMolecule (b : Block) (la : BAtom) (hla : b.atoms.getLast? = some la) (hr : la.resid ≠ 0) :
@@ -1214,7 +1249,7 @@ theorem addBlocksSorted_segs (ff : FF) (t : Tables κ) (segs : List (Seg κ)) (s
     (hne : segs ≠ []) (hstart : 1 ≤ start)
     (hfirst : ∀ n others rest, segs = .multi n others :: rest → start = 1)
     (hnd : ((segNodes segs).map (·.key)).Nodup)
-    (hok : SegsOK ff t 0 segs)
+    (hok : SegsOK ff t segs)
     (hres : (segNodes segs).map (·.resid) = List.range' start (segNodes segs).length) :
     ∃ st, addBlocksSorted ff t (segNodes segs) = .ok st ∧
       st.mol.atoms = (specGo ff 0 0 0 (segNodes segs)).atoms ∧
@@ -1256,9 +1291,9 @@ theorem addBlocksSorted_segs (ff : FF) (t : Tables κ) (segs : List (Seg κ)) (s
       have hs1 : start = 1 := hfirst n others rest rfl
       subst hs1
       simp only [segNodes, List.flatMap_cons, Seg.nodes] at hnd hres ⊢
-      obtain ⟨⟨bn, b, hfi, hb, hmb, hlen, htbl, hf, hfr, hoth⟩, hokrest⟩ := hok
+      obtain ⟨⟨bn, b, f, hfi, hb, hmb, hlen, htbl, hf, hfr, hoth⟩, hokrest⟩ := hok
       obtain ⟨hbase, hres1, la, hla, hlares⟩ := hmb
-      have hfirstN := firstNode_multi ff t n bn b 0 _ hfi htbl hb hf hfr
+      have hfirstN := firstNode_multi ff t n bn b f _ hfi htbl hb hf hfr
       have hnres : n.resid = 1 := by
         have := congrArg List.head? hres
         simpa [List.range'_succ] using this
@@ -1266,12 +1301,12 @@ theorem addBlocksSorted_segs (ff : FF) (t : Tables κ) (segs : List (Seg κ)) (s
         have := good_toMolecule b la hla (by omega)
         rwa [hlares] at this
       -- the other residues of the first copy
-      obtain ⟨st1, hrun1, hmol1, hadd1, hcorr1⟩ :=
-        addBlocksFrom_added ff t 0 ((toMolecule b).atoms.map (·.node)) others
+      obtain ⟨st1, hrun1, hmol1, hadd1, _⟩ :=
+        addBlocksFrom_added ff t f ((toMolecule b).atoms.map (·.node)) others
           ⟨toMolecule b, [(n.key, residueOf (toMolecule b) ((toMolecule b).atoms.map (·.node)) n.resid)],
-            n.key :: others.map (·.key), [(toMolecule b).atoms.map (·.node)]⟩
+            n.key :: others.map (·.key), [(f, (toMolecule b).atoms.map (·.node))]⟩
           (fun o ho => ⟨by simp only [List.mem_cons, List.mem_map]; exact Or.inr ⟨o, ho, rfl⟩, hoth o ho⟩)
-          (by simp)
+          (by simp [assocGet?])
       have hrestres : (List.flatMap Seg.nodes rest).map (·.resid) =
           List.range' (b.nres + 1) (List.flatMap Seg.nodes rest).length := by
         have h1 := congrArg (List.drop (others.length + 1)) hres
@@ -1298,7 +1333,7 @@ theorem addBlocksSorted_segs (ff : FF) (t : Tables κ) (segs : List (Seg κ)) (s
       obtain ⟨st', hrun, hatoms, hixns⟩ :=
         addBlocksFrom_segs ff t rest st1 b.nres la.cgrp g1 hnot1
           (by simpa [segNodes] using (List.nodup_append.mp hnd').2.1)
-          (by rw [hcorr1]; exact hokrest)
+          hokrest
           (by simpa [segNodes] using hrestres)
       have happ := addBlocksFrom_append_ok ff t others (List.flatMap Seg.nodes rest) _ st1 hrun1
       refine ⟨st', ?_, ?_, ?_⟩
@@ -1674,6 +1709,425 @@ theorem defaultTargets_rename (f : κ → κ') (nodes : List (ResNode κ)) :
   simp [renameNode, List.map_map, Function.comp_def]
 
 end relabel
+
+/-! ## C13: relabelling, the whole of `match_nodes_to_blocks` + `add_blocks` -/
+
+section relabel2
+variable {κ κ' : Type} [DecidableEq κ] [DecidableEq κ']
+
+def renameGraph (f : κ → κ') (g : ResGraph κ) : ResGraph κ' :=
+  ⟨g.nodes.map (renameNode f), g.adj.map fun kv => (f kv.1, kv.2.map f)⟩
+
+def renameEdge (f : κ → κ') (e : κ × κ) : κ' × κ' := (f e.1, f e.2)
+
+theorem assocGet?_rename_val {β γ : Type} (f : κ → κ') (hf : Injective f) (h : β → γ) (l : List (κ × β)) (k : κ) :
+    assocGet? (l.map fun kv => (f kv.1, h kv.2)) (f k) = (assocGet? l k).map h := by
+  induction l with
+  | nil => rfl
+  | cons kv rest ih =>
+    unfold assocGet? at ih ⊢
+    simp only [List.map_cons, List.find?_cons]
+    by_cases hk : kv.1 = k
+    · simp [hk]
+    · have h' : ¬ f kv.1 = f k := fun e => hk (hf _ _ e)
+      simp only [hk, h', decide_false]
+      exact ih
+
+theorem neighbors_rename (f : κ → κ') (hf : Injective f) (g : ResGraph κ) (k : κ) :
+    (renameGraph f g).neighbors (f k) = (g.neighbors k).map f := by
+  unfold ResGraph.neighbors renameGraph
+  simp only [assocGet?_rename_val f hf]
+  cases assocGet? g.adj k <;> rfl
+
+theorem node?_rename (f : κ → κ') (hf : Injective f) (g : ResGraph κ) (k : κ) :
+    (renameGraph f g).node? (f k) = (g.node? k).map (renameNode f) := by
+  unfold ResGraph.node? renameGraph
+  simp only [List.find?_map]
+  have hp : ((fun n : ResNode κ' => decide (n.key = f k)) ∘ renameNode f) =
+      fun n : ResNode κ => decide (n.key = k) := by
+    funext n
+    by_cases h : n.key = k
+    · simp [Function.comp, renameNode, h]
+    · have h' : ¬ f n.key = f k := fun e => h (hf _ _ e)
+      simp [Function.comp, renameNode, h, h']
+  rw [hp]
+
+theorem dfsLoop_rename (f : κ → κ') (hf : Injective f) (g : ResGraph κ) :
+    ∀ (fuel : Nat) (stack : List (κ × List κ)) (visited : List κ) (out : List (κ × κ)),
+      dfsLoop (renameGraph f g) fuel (stack.map fun pc => (f pc.1, pc.2.map f)) (visited.map f)
+          (out.map (renameEdge f)) =
+        ((dfsLoop g fuel stack visited out).1.map f, (dfsLoop g fuel stack visited out).2.map (renameEdge f)) := by
+  intro fuel
+  induction fuel with
+  | zero => intro stack visited out; rfl
+  | succ n ih =>
+    intro stack visited out
+    cases stack with
+    | nil => rfl
+    | cons top rest =>
+      obtain ⟨p, cs⟩ := top
+      cases cs with
+      | nil =>
+        simp only [List.map_cons, List.map_nil, dfsLoop]
+        exact ih rest visited out
+      | cons c cs' =>
+        simp only [List.map_cons, dfsLoop, mem_map_inj f hf]
+        by_cases hc : c ∈ visited
+        · simp only [hc, if_true]
+          exact ih ((p, cs') :: rest) visited out
+        · simp only [hc, if_false]
+          have := ih ((c, g.neighbors c) :: (p, cs') :: rest) (c :: visited) (out ++ [(p, c)])
+          simp only [List.map_cons, List.map_append, List.map_nil, renameEdge, neighbors_rename f hf] at this ⊢
+          exact this
+
+theorem dfsFuel_rename (f : κ → κ') (g : ResGraph κ) :
+    2 * (((renameGraph f g).adj.map (fun kv => kv.2.length + 1)).foldl (· + ·) 0) + 2 * (renameGraph f g).nodes.length + 4 =
+    2 * ((g.adj.map (fun kv => kv.2.length + 1)).foldl (· + ·) 0) + 2 * g.nodes.length + 4 := by
+  simp [renameGraph, List.map_map, Function.comp_def]
+
+theorem dfsEdges_rename (f : κ → κ') (hf : Injective f) (g : ResGraph κ) :
+    dfsEdges (renameGraph f g) = (dfsEdges g).map (renameEdge f) := by
+  unfold dfsEdges
+  rw [dfsFuel_rename]
+  generalize 2 * ((g.adj.map (fun kv => kv.2.length + 1)).foldl (· + ·) 0) + 2 * g.nodes.length + 4 = fuel
+  -- generalise the accumulator of the fold over the start nodes
+  have key : ∀ (nodes : List (ResNode κ)) (acc : List κ × List (κ × κ)),
+      (nodes.map (renameNode f)).foldl (fun (acc : List κ' × List (κ' × κ')) n =>
+          if n.key ∈ acc.1 then acc
+          else dfsLoop (renameGraph f g) fuel [(n.key, (renameGraph f g).neighbors n.key)] (n.key :: acc.1) acc.2)
+        (acc.1.map f, acc.2.map (renameEdge f)) =
+      (((nodes.foldl (fun (acc : List κ × List (κ × κ)) n =>
+          if n.key ∈ acc.1 then acc
+          else dfsLoop g fuel [(n.key, g.neighbors n.key)] (n.key :: acc.1) acc.2) acc).1).map f,
+       ((nodes.foldl (fun (acc : List κ × List (κ × κ)) n =>
+          if n.key ∈ acc.1 then acc
+          else dfsLoop g fuel [(n.key, g.neighbors n.key)] (n.key :: acc.1) acc.2) acc).2).map (renameEdge f)) := by
+    intro nodes
+    induction nodes with
+    | nil => intro acc; rfl
+    | cons n rest ih =>
+      intro acc
+      simp only [List.map_cons, List.foldl_cons]
+      have hkey : (renameNode f n).key = f n.key := rfl
+      simp only [hkey, mem_map_inj f hf]
+      by_cases hin : n.key ∈ acc.1
+      · simp only [hin, if_true]
+        exact ih acc
+      · simp only [hin, if_false]
+        have hd := dfsLoop_rename f hf g fuel [(n.key, g.neighbors n.key)] (n.key :: acc.1) acc.2
+        simp only [List.map_cons, List.map_nil, neighbors_rename f hf] at hd ⊢
+        rw [hd]
+        exact ih _
+  have := key g.nodes ([], [])
+  simp only [List.map_nil] at this
+  simp only [renameGraph] at this ⊢
+  rw [this]
+
+theorem addNew_rename (f : κ → κ') (hf : Injective f) (l : List κ) (k : κ) :
+    addNew (l.map f) (f k) = (addNew l k).map f := by
+  unfold addNew
+  simp only [mem_map_inj f hf]
+  by_cases h : k ∈ l <;> simp [h]
+
+theorem fromItp_rename (f : κ → κ') (hf : Injective f) (g : ResGraph κ) (k : κ) :
+    ((renameGraph f g).node? (f k)).bind (·.fromItp) = (g.node? k).bind (·.fromItp) := by
+  rw [node?_rename f hf]
+  cases g.node? k <;> rfl
+
+theorem classify_rename (f : κ → κ') (hf : Injective f) (g : ResGraph κ) (init : List κ) :
+    classify (renameGraph f g) (init.map f) =
+      ((classify g init).1.map f, (classify g init).2.map (renameEdge f)) := by
+  unfold classify
+  rw [dfsEdges_rename f hf]
+  generalize dfsEdges g = edges
+  have key : ∀ (edges : List (κ × κ)) (acc : List κ × List (κ × κ)),
+      (edges.map (renameEdge f)).foldl (fun (acc : List κ' × List (κ' × κ')) e =>
+          match ((renameGraph f g).node? e.1).bind (·.fromItp), ((renameGraph f g).node? e.2).bind (·.fromItp) with
+          | some a, some b => if a = b then (acc.1, acc.2 ++ [e]) else acc
+          | _, _ => (addNew (addNew acc.1 e.1) e.2, acc.2)) (acc.1.map f, acc.2.map (renameEdge f)) =
+      (((edges.foldl (fun (acc : List κ × List (κ × κ)) e =>
+          match (g.node? e.1).bind (·.fromItp), (g.node? e.2).bind (·.fromItp) with
+          | some a, some b => if a = b then (acc.1, acc.2 ++ [e]) else acc
+          | _, _ => (addNew (addNew acc.1 e.1) e.2, acc.2)) acc).1).map f,
+       ((edges.foldl (fun (acc : List κ × List (κ × κ)) e =>
+          match (g.node? e.1).bind (·.fromItp), (g.node? e.2).bind (·.fromItp) with
+          | some a, some b => if a = b then (acc.1, acc.2 ++ [e]) else acc
+          | _, _ => (addNew (addNew acc.1 e.1) e.2, acc.2)) acc).2).map (renameEdge f)) := by
+    intro edges
+    induction edges with
+    | nil => intro acc; rfl
+    | cons e rest ih =>
+      intro acc
+      simp only [List.map_cons, List.foldl_cons]
+      have h1 : (renameEdge f e).1 = f e.1 := rfl
+      have h2 : (renameEdge f e).2 = f e.2 := rfl
+      rw [h1, h2, fromItp_rename f hf, fromItp_rename f hf]
+      cases ha : (g.node? e.1).bind (·.fromItp) <;> cases hb : (g.node? e.2).bind (·.fromItp)
+      · simp only [addNew_rename f hf]; exact ih (addNew (addNew acc.1 e.1) e.2, acc.2)
+      · simp only [addNew_rename f hf]; exact ih (addNew (addNew acc.1 e.1) e.2, acc.2)
+      · simp only [addNew_rename f hf]; exact ih (addNew (addNew acc.1 e.1) e.2, acc.2)
+      · rename_i a b
+        by_cases hab : a = b
+        · simp only [hab, if_true]
+          have := ih (acc.1, acc.2 ++ [e])
+          simpa [renameEdge] using this
+        · simp only [hab, if_false]
+          exact ih acc
+  have := key edges (init, [])
+  simp only [List.map_nil] at this
+  exact this
+
+theorem closureStep_rename (f : κ → κ') (hf : Injective f) (edges : List (κ × κ)) :
+    ∀ (seen : List κ),
+      (edges.map (renameEdge f)).foldl (fun s e =>
+          if e.1 ∈ s ∧ e.2 ∉ s then s ++ [e.2] else if e.2 ∈ s ∧ e.1 ∉ s then s ++ [e.1] else s) (seen.map f) =
+      (edges.foldl (fun s e =>
+          if e.1 ∈ s ∧ e.2 ∉ s then s ++ [e.2] else if e.2 ∈ s ∧ e.1 ∉ s then s ++ [e.1] else s) seen).map f := by
+  induction edges with
+  | nil => intro seen; rfl
+  | cons e rest ih =>
+    intro seen
+    simp only [List.map_cons, List.foldl_cons, renameEdge, mem_map_inj f hf]
+    by_cases h1 : e.1 ∈ seen ∧ e.2 ∉ seen
+    · simp only [h1, and_self, not_false_eq_true, if_true]
+      have := ih (seen ++ [e.2])
+      simpa using this
+    · simp only [h1, if_false]
+      by_cases h2 : e.2 ∈ seen ∧ e.1 ∉ seen
+      · simp only [h2, and_self, not_false_eq_true, if_true]
+        have := ih (seen ++ [e.1])
+        simpa using this
+      · simp only [h2, if_false]
+        exact ih seen
+
+theorem closure_rename (f : κ → κ') (hf : Injective f) (edges : List (κ × κ)) :
+    ∀ (fuel : Nat) (seen : List κ),
+      closure (edges.map (renameEdge f)) fuel (seen.map f) = (closure edges fuel seen).map f := by
+  intro fuel
+  induction fuel with
+  | zero => intro seen; rfl
+  | succ n ih =>
+    intro seen
+    simp only [closure]
+    rw [closureStep_rename f hf edges seen]
+    exact ih _
+
+theorem components_rename (f : κ → κ') (hf : Injective f) (keys : List κ) (edges : List (κ × κ)) :
+    components (keys.map f) (edges.map (renameEdge f)) = (components keys edges).map (·.map f) := by
+  unfold components
+  simp only [List.length_map]
+  generalize keys.length = fuel
+  have key : ∀ (ks : List κ) (comps : List (List κ)),
+      (ks.map f).foldl (fun comps k =>
+          if comps.any (fun c => k ∈ c) then comps else comps ++ [closure (edges.map (renameEdge f)) fuel [k]])
+        (comps.map (·.map f)) =
+      (ks.foldl (fun comps k =>
+          if comps.any (fun c => k ∈ c) then comps else comps ++ [closure edges fuel [k]]) comps).map (·.map f) := by
+    intro ks
+    induction ks with
+    | nil => intro comps; rfl
+    | cons k rest ih =>
+      intro comps
+      simp only [List.map_cons, List.foldl_cons]
+      have hany : ((comps.map (·.map f)).any fun c => decide (f k ∈ c)) = comps.any fun c => decide (k ∈ c) := by
+        rw [List.any_map]
+        congr 1
+        funext c
+        simp only [Function.comp, mem_map_inj f hf]
+      rw [hany]
+      by_cases h : (comps.any fun c => decide (k ∈ c)) = true
+      · simp only [h, if_true]
+        exact ih comps
+      · simp only [h, Bool.false_eq_true, if_false]
+        have hc := closure_rename f hf edges fuel [k]
+        simp only [List.map_cons, List.map_nil] at hc
+        rw [hc]
+        have := ih (comps ++ [closure edges fuel [k]])
+        simpa using this
+  have := key keys []
+  simpa using this
+
+theorem slices_map {α β : Type} (h : α → β) : ∀ (n len : Nat) (l : List α),
+    slices n len (l.map h) = (slices n len l).map (·.map h) := by
+  intro n
+  induction n with
+  | zero => intro len l; rfl
+  | succ k ih =>
+    intro len l
+    simp only [slices, List.map_cons, List.map_take]
+    rw [← List.map_drop, ih]
+
+theorem assocSet_rename {β : Type} (f : κ → κ') (hf : Injective f) (l : List (κ × β)) (k : κ) (v : β) :
+    assocSet (renameAssoc f l) (f k) v = renameAssoc f (assocSet l k v) := by
+  induction l with
+  | nil => rfl
+  | cons kv rest ih =>
+    unfold renameAssoc at ih ⊢
+    simp only [List.map_cons, assocSet]
+    by_cases h : kv.1 = k
+    · simp [h]
+    · have h' : ¬ f kv.1 = f k := fun e => h (hf _ _ e)
+      simp only [h, h', if_false, List.map_cons, ih]
+
+theorem foldl_assocSet_rename {β : Type} (f : κ → κ') (hf : Injective f) (v : β) (grp : List κ) :
+    ∀ (l : List (κ × β)),
+      (grp.map f).foldl (fun b k => assocSet b k v) (renameAssoc f l) =
+        renameAssoc f (grp.foldl (fun b k => assocSet b k v) l) := by
+  induction grp with
+  | nil => intro l; rfl
+  | cons k rest ih =>
+    intro l
+    simp only [List.map_cons, List.foldl_cons, assocSet_rename f hf]
+    exact ih _
+
+theorem filterMap_node?_rename (f : κ → κ') (hf : Injective f) (g : ResGraph κ) (comp : List κ) :
+    (comp.map f).filterMap (renameGraph f g).node? = (comp.filterMap g.node?).map (renameNode f) := by
+  induction comp with
+  | nil => rfl
+  | cons k rest ih =>
+    simp only [List.map_cons, List.filterMap_cons, node?_rename f hf]
+    cases g.node? k with
+    | none => simpa using ih
+    | some n => simp [ih]
+
+theorem addFragment_rename (f : κ → κ') (hf : Injective f) (ff : FF) (g : ResGraph κ) (t : Tables κ)
+    (comp : List κ) :
+    addFragment ff (renameGraph f g) (renameTables f t) (comp.map f) =
+      (addFragment ff g t comp).map (renameTables f) := by
+  unfold addFragment
+  simp only [filterMap_node?_rename f hf, sortByResid_rename]
+  cases hs : sortByResid (comp.filterMap g.node?) with
+  | nil => rfl
+  | cons first rest =>
+    simp only [List.map_cons, renameNode, List.length_cons, List.length_map]
+    cases ff.block? (first.fromItp.getD "") with
+    | none => rfl
+    | some block =>
+      simp only
+      by_cases h0 : block.nres = 0
+      · simp [h0, Except.map]
+      · simp only [h0, if_false]
+        by_cases h1 : (rest.length + 1) % block.nres ≠ 0
+        · simp [h1, Except.map]
+        · simp only [h1, if_false, Except.map]
+          congr 1
+          have hkeys : (f first.key :: List.map (fun n => (renameNode f n).key) rest) =
+              (first.key :: rest.map (·.key)).map f := by
+            simp [List.map_map, Function.comp_def, renameNode]
+          have hmm : List.map (fun x => x.key) (List.map (renameNode f) rest) =
+              List.map (fun n => (renameNode f n).key) rest := by
+            simp [List.map_map, Function.comp_def]
+          simp only [List.map_map] at hmm ⊢
+          rw [show (f first.key :: List.map ((fun x => x.key) ∘ renameNode f) rest) =
+              (first.key :: rest.map (·.key)).map f from by simp [List.map_map, Function.comp_def, renameNode]]
+          rw [slices_map]
+          generalize slices ((rest.length + 1) / block.nres) block.nres (first.key :: rest.map (·.key)) = groups
+          -- fold over the groups
+          have key : ∀ (groups : List (List κ)) (t : Tables κ),
+              (groups.map (·.map f)).foldl (fun (t : Tables κ') grp =>
+                  { blockOf := grp.foldl (fun b k => assocSet b k (first.fromItp.getD "")) t.blockOf,
+                    fragOf := grp.foldl (fun fr k => assocSet fr k t.frags.length) t.fragOf,
+                    frags := t.frags ++ [grp] }) (renameTables f t) =
+              renameTables f (groups.foldl (fun (t : Tables κ) grp =>
+                  { blockOf := grp.foldl (fun b k => assocSet b k (first.fromItp.getD "")) t.blockOf,
+                    fragOf := grp.foldl (fun fr k => assocSet fr k t.frags.length) t.fragOf,
+                    frags := t.frags ++ [grp] }) t) := by
+            intro groups
+            induction groups with
+            | nil => intro t; rfl
+            | cons grp more ih =>
+              intro t
+              simp only [List.map_cons, List.foldl_cons]
+              have := ih { blockOf := grp.foldl (fun b k => assocSet b k (first.fromItp.getD "")) t.blockOf,
+                           fragOf := grp.foldl (fun fr k => assocSet fr k t.frags.length) t.fragOf,
+                           frags := t.frags ++ [grp] }
+              rw [← this]
+              congr 1
+              simp only [renameTables, foldl_assocSet_rename f hf, List.length_map, List.map_append, List.map_cons,
+                List.map_nil]
+          exact key groups t
+
+theorem foldlM_addFragment_rename (f : κ → κ') (hf : Injective f) (ff : FF) (g : ResGraph κ)
+    (comps : List (List κ)) : ∀ (t : Tables κ),
+      (comps.map (·.map f)).foldlM (addFragment ff (renameGraph f g)) (renameTables f t) =
+        (comps.foldlM (addFragment ff g) t).map (renameTables f) := by
+  induction comps with
+  | nil => intro t; rfl
+  | cons c rest ih =>
+    intro t
+    simp only [List.map_cons, List.foldlM_cons, addFragment_rename f hf, bind, Except.bind]
+    cases addFragment ff g t c with
+    | error e => rfl
+    | ok t' => simp only [Except.map]; exact ih t'
+
+theorem regularTable_rename (f : κ → κ') (hf : Injective f) (g : ResGraph κ) (regular : List κ) :
+    ∀ (acc : List (κ × String)),
+      (regular.map f).foldl (fun b k => assocSet b k (((renameGraph f g).node? k).map (·.resname) |>.getD ""))
+          (renameAssoc f acc) =
+        renameAssoc f (regular.foldl (fun b k => assocSet b k ((g.node? k).map (·.resname) |>.getD "")) acc) := by
+  induction regular with
+  | nil => intro acc; rfl
+  | cons k rest ih =>
+    intro acc
+    simp only [List.map_cons, List.foldl_cons, node?_rename f hf]
+    have hres : (Option.map (fun x => x.resname) (Option.map (renameNode f) (g.node? k))).getD "" =
+        (Option.map (fun x => x.resname) (g.node? k)).getD "" := by
+      cases g.node? k <;> rfl
+    rw [hres, assocSet_rename f hf]
+    exact ih _
+
+theorem matchNodesToBlocks_rename (f : κ → κ') (hf : Injective f) (ff : FF) (g : ResGraph κ) :
+    matchNodesToBlocks ff (renameGraph f g) = (matchNodesToBlocks ff g).map (renameTables f) := by
+  unfold matchNodesToBlocks
+  have hkeys : ((renameGraph f g).nodes.filter (·.fromItp.isSome)).map (·.key) =
+      ((g.nodes.filter (·.fromItp.isSome)).map (·.key)).map f := by
+    simp only [renameGraph, List.filter_map, List.map_map]
+    rfl
+  have hinit : (if (renameGraph f g).nodes.length = 1 then (renameGraph f g).nodes.map (·.key) else []) =
+      (if g.nodes.length = 1 then g.nodes.map (·.key) else []).map f := by
+    simp only [renameGraph, List.length_map, List.map_map]
+    split
+    · rw [List.map_map]
+      apply List.map_congr_left
+      intro n _
+      rfl
+    · rfl
+  rw [hkeys, hinit, classify_rename f hf]
+  simp only
+  rw [components_rename f hf]
+  have hreg := regularTable_rename f hf g (classify g (if g.nodes.length = 1 then g.nodes.map (·.key) else [])).1 []
+  simp only [renameAssoc, List.map_nil] at hreg
+  rw [hreg]
+  exact foldlM_addFragment_rename f hf ff g _ ⟨_, [], []⟩
+
+theorem blocksKnown_rename (f : κ → κ') (ff : FF) (t : Tables κ) :
+    blocksKnown ff (renameTables f t) = blocksKnown ff t := by
+  simp [blocksKnown, renameTables, renameAssoc, List.all_map, Function.comp_def]
+
+theorem nrexclOf_rename (f : κ → κ') (ff : FF) (t : Tables κ) :
+    nrexclOf ff (renameTables f t) = nrexclOf ff t := by
+  simp [nrexclOf, renameTables, renameAssoc, List.filterMap_map, Function.comp_def]
+
+/-- the whole of `MapToMolecule.run_molecule` commutes with every injective renaming of the node keys -/
+theorem mapToMolecule_rename (f : κ → κ') (hf : Injective f) (ff : FF) (g : ResGraph κ) :
+    mapToMolecule ff (renameGraph f g) = (mapToMolecule ff g).map (fun r => (renameSt f r.1, r.2)) := by
+  unfold mapToMolecule
+  rw [matchNodesToBlocks_rename f hf]
+  cases matchNodesToBlocks ff g with
+  | error e => rfl
+  | ok t =>
+    simp only [Except.map, blocksKnown_rename, nrexclOf_rename]
+    by_cases hk : blocksKnown ff t = true
+    · simp only [hk, Bool.not_true, Bool.false_eq_true, if_false]
+      have := addBlocks_rename f hf ff t g.nodes
+      simp only [renameGraph] at this ⊢
+      rw [this]
+      cases addBlocks ff t g.nodes with
+      | error e => rfl
+      | ok st => rfl
+    · simp [hk]
+
+end relabel2
 
 /-! ## C13: order of link definitions that do not write the same key -/
 
